@@ -1,20 +1,33 @@
-"""Obligations for C17 (user-defined (un)marshalers: dispatch order and policing) and the
-adversarial-user-code clause of C02."""
+"""Obligations for C17 (user-defined (un)marshalers: dispatch order and policing) and, with the
+same harnesses, the adversarial-user-code clause of C02 (labels C02/user/...)."""
 import os
 import re
 from oblib import ob
 
-BOUNDS = {"quick": "", "thorough": ""}
-ASSUMPTIONS = []
+BOUNDS = {
+    "quick": "Real Go types (int8 underneath) for 14 combinations of {MarshalJSONTo, MarshalJSON, AppendText, MarshalText} x {value, pointer receiver, absent} and 6 combinations of {UnmarshalJSONFrom, UnmarshalJSON, UnmarshalText}; every type at 15 marshal positions (top-level value/pointer, slice and array element, map value, map key, addressable field, field of a non-addressable struct, behind any, pointer field, nil pointers at 4 places) and 11 unmarshal positions (incl. nil pointer allocation, existing map entry, any holding a pointer), each twice (cold/warm caches), with MarshalJSONTo/UnmarshalJSONFrom skipping by plain or wrapped ErrUnsupported: exact call log, receiver value and output/stored value. Policing: MarshalJSONTo performs every sequence of <= 3 (some positions <= 2) encoder calls from {null, [, ], {, }, \"a\"} with errors swallowed, then returns nil / ErrUnsupported / wrapped ErrUnsupported / own error; MarshalJSON returns every 2-3 byte string (and templates with duplicate names, strings) with nil/error; AppendText/MarshalText return every 2-byte text (ill-formed UTF-8 included) incl. an AppendText that returns a fresh or shortened slice; UnmarshalJSONFrom performs every sequence of <= 2..5 decoder calls from {ReadToken, SkipValue, PeekKind, ReadValue} on fixed inputs; UnmarshalJSON/UnmarshalText receive inputs of 2 arbitrary bytes and templates. Options (4 symbolic booleans) seen through Encoder/Decoder.Options inside the call for Marshal/MarshalWrite/MarshalEncode and the Unmarshal trio; Reset inside the call. Function lists of <= 3 elements built from MarshalFunc/MarshalToFunc (UnmarshalFunc/UnmarshalFromFunc) on T, *T, an interface, an unrelated type, flat and nested joins, 4-5 symbolic behaviours per element, second call with warm per-list cache; functions on string/bool under any.",
+    "thorough": "as quick, with all three MarshalerTo-first types at all scripted positions with <= 3 calls, raw values of 2 arbitrary bytes among the scripted encoder calls, MarshalJSON/UnmarshalJSON/UnmarshalText over all 3-byte inputs, texts of 3 bytes, longer decoder scripts.",
+}
+ASSUMPTIONS = [
+    "reflect.Type/reflect.Value are the engine's go/types-backed environment model (engine/reflect.go); the harness replays natively verbatim",
+    "the values are int8-based named types and the containers listed in BOUNDS; user code is a finite script alphabet (not arbitrary Go): calls on a retained coder after return, goroutines, and an AppendText that overwrites the bytes before len(b) are outside",
+    "legacy (v1) options such as CallMethodsWithLegacySemantics are outside: default options plus AllowInvalidUTF8/AllowDuplicateNames/StringifyNumbers/Deterministic/RejectUnknownMembers",
+    "known finding KF-C17-close-parent-container: assertions whose script closed a container of the caller are attributed to it",
+]
 
 NT = 14
 NP = 15
+
+
+def hasJ(spec):
+    return any(spec[2 * i] == "J" and spec[2 * i + 1] != "o" for i in range(len(spec) // 2))
 
 
 def obligations(tier):
     q = tier == "quick"
     only = os.environ.get("C17_ONLY")
     L = []
+    # ---- marshal: order, receivers, nil pointers
     for t in range(NT):
         for p in range(NP):
             nil = p in (10, 11, 12, 13)
@@ -22,48 +35,71 @@ def obligations(tier):
             if not nil and t in (0, 1, 8, 9, 10, 11, 12):
                 cov.append("fell-through")
             L.append(ob("morder/t=%d/p=%d" % (t, p), ".", "VerifC17MOrder", [t, p], covers=cov, max_seconds=600, max_paths=200))
+    # ---- marshal: scripted MarshalJSONTo
     MTO_COV = ["one-value", "zero-values", "two-values", "left-open", "user-error", "skip", "unsupported-after-write"]
-    for t in (0, 1, 12):
-        for p, k in ((0, 3), (2, 3), (3, 3), (4, 2), (6, 2), (8, 2)):
-            L.append(ob("mto/t=%d/p=%d/k=%d" % (t, p, k), ".", "VerifC17MTo", [t, p, k, 0], covers=MTO_COV, max_seconds=900, max_paths=20000))
-    B = (False, True)
+    if q:
+        MTO = [(0, 0, 3), (0, 2, 3), (0, 3, 3), (0, 4, 2), (0, 6, 2), (0, 8, 2), (1, 0, 2), (1, 2, 3), (1, 3, 2), (12, 2, 2), (12, 8, 2), (12, 5, 2)]
+    else:
+        MTO = [(t, p, 3) for t in (0, 1, 12) for p in (0, 1, 2, 3, 4, 5, 6, 8, 9)]
+    for t, p, k in MTO:
+        L.append(ob("mto/t=%d/p=%d/k=%d" % (t, p, k), ".", "VerifC17MTo", [t, p, k, 0], covers=MTO_COV, max_seconds=900, max_paths=20000))
+    for t, p, k in ([(0, 2, 1)] if q else [(0, 2, 2), (1, 3, 2), (12, 0, 2), (0, 8, 2)]):
+        L.append(ob("mto/raw=2/t=%d/p=%d/k=%d" % (t, p, k), ".", "VerifC17MTo", [t, p, k, 2], covers=["one-value", "zero-values", "skip"], max_seconds=1200, max_paths=60000))
+    # ---- marshal: scripted MarshalJSON
     for t, p in ((2, 0), (3, 2), (2, 8), (0, 3), (10, 6)):
-        n = 3 if p == 0 else 2
-        L.append(ob("mj/t=%d/p=%d/n<=%d" % (t, p, n), ".", "VerifC17MJ", [t, p, n, "", False, False], covers=["valid-raw", "invalid-raw", "error-returned"], max_seconds=900, max_paths=60000))
-    for i, (t, p, tm, u, d) in enumerate(((3, 3, '{"?":0,"?":0}', False, False), (2, 2, '{"?":0,"?":0}', False, True), (2, 4, '"??"', False, False), (3, 0, '"??"', True, False), (2, 8, '"?" ', False, False))):
+        n = 2 if (q or p != 0) else 3
+        L.append(ob("mj/t=%d/p=%d/n=%d" % (t, p, n), ".", "VerifC17MJ", [t, p, n, "", False, False], covers=["valid-raw", "invalid-raw", "error-returned"], max_seconds=900, max_paths=60000))
+    MJT = [(3, 3, '{"?":0,"?":0}', False, False), (2, 2, '{"?":0,"?":0}', False, True), (2, 4, '"??"', False, False), (3, 0, '"??"', True, False), (2, 8, '"?" ', False, False)]
+    if not q:
+        MJT += [(11, 1, '[?,?]', False, False), (3, 9, '"\\\\??"', False, False)]
+    for i, (t, p, tm, u, d) in enumerate(MJT):
         L.append(ob("mj/T%d/t=%d/p=%d" % (i, t, p), ".", "VerifC17MJ", [t, p, 0, tm, u, d], covers=["valid-raw", "error-returned"], max_seconds=900, max_paths=60000))
+    # ---- marshal: scripted text methods
+    n = 2 if q else 3
     for t, p, u in ((4, 0, False), (5, 2, False), (6, 3, False), (7, 8, False), (9, 4, False), (8, 6, True), (4, 8, True), (5, 3, True)):
-        L.append(ob("mtext/t=%d/p=%d/n=2/utf8=%d" % (t, p, u), ".", "VerifC17MText", [t, p, 2, 0, u], covers=["text-encoded", "error-returned"] + ([] if u else ["ill-formed-rejected"]), max_seconds=900, max_paths=60000))
-    for t, p, m in ((4, 0, 1), (4, 2, 1), (5, 3, 1), (4, 0, 2), (5, 2, 2), (9, 8, 2)):
-        L.append(ob("textappend-contract/t=%d/p=%d/mode=%d" % (t, p, m), ".", "VerifC17MText", [t, p, 1, m, False], covers=["contract-violated"], max_seconds=900, max_paths=60000))
+        if not q and p not in (0, 8):
+            n = 2
+        L.append(ob("mtext/t=%d/p=%d/n=%d/utf8=%d" % (t, p, n, u), ".", "VerifC17MText", [t, p, n, 0, u], covers=["text-encoded", "error-returned"] + ([] if u else ["ill-formed-rejected"]), max_seconds=900, max_paths=60000))
+    for t, p, m in ((4, 0, 1), (4, 2, 1), (5, 3, 1), (4, 8, 1), (4, 0, 2), (5, 2, 2), (9, 8, 2)):
+        L.append(ob("textappend-contract/t=%d/p=%d/mode=%d" % (t, p, m), ".", "VerifC17MText", [t, p, 1 if q else 2, m, False], covers=["contract-violated"], max_seconds=900, max_paths=60000))
+    # ---- marshal: options and Reset inside the call
     for t, p, api, r in ((0, 0, 0, False), (1, 2, 0, True), (0, 3, 1, True), (1, 4, 2, True), (12, 6, 2, False), (0, 8, 0, True), (1, 0, 1, False)):
         L.append(ob("mopts/t=%d/p=%d/api=%d/reset=%d" % (t, p, api, r), ".", "VerifC17MOpts", [t, p, api, r], covers=["done"] + (["reset-tried"] if r else []), max_seconds=900, max_paths=2000))
+    # ---- marshal: function lists
     FS = [(0, 0, "TvTv", 0), (1, 2, "TvJv", 0), (13, 3, "JvTv", 0), (0, 4, "ToTvTp", 1), (1, 6, "TpTvJi", 0), (13, 8, "TiJpTv", 1),
           (1, 1, "TiTpTv", 1), (0, 10, "TpTi", 0), (1, 11, "JpTv", 0), (0, 12, "TiJv", 0), (1, 14, "TvJp", 0), (0, 5, "JoTpJv", 1), (13, 7, "TvTiTp", 0),
           (1, 9, "TpJi", 0), (0, 13, "JiTp", 0)]
     for t, p, spec, nest in FS:
         nil = p in (10, 11, 12, 13)
-        L.append(ob("mfuncs/t=%d/p=%d/%s/nest=%d" % (t, p, spec, nest), ".", "VerifC17MFuncs", [t, p, spec, bool(nest)], covers=([] if (not nil and any(spec[2 * i] == "J" and spec[2 * i + 1] != "o" for i in range(len(spec) // 2))) else ["all-skipped"]) + ([] if nil else ["function-decides", "error"]), max_seconds=900, max_paths=3000))
+        L.append(ob("mfuncs/t=%d/p=%d/%s/nest=%d" % (t, p, spec, nest), ".", "VerifC17MFuncs", [t, p, spec, bool(nest)],
+                    covers=([] if (not nil and hasJ(spec)) else ["all-skipped"]) + ([] if nil else ["function-decides", "error"]), max_seconds=900, max_paths=3000))
     for sh in range(4):
         L.append(ob("mfuncsany/shape=%d" % sh, ".", "VerifC17MFuncsAny", [sh], covers=["done"], max_seconds=900, max_paths=100))
+    # ---- unmarshal: order
     for t in range(6):
         for p in range(11):
             L.append(ob("uorder/t=%d/p=%d" % (t, p), ".", "VerifC17UOrder", [t, p], covers=["first"] + (["fell-through"] if t in (0, 3, 4) else []), max_seconds=600, max_paths=200))
+    # ---- unmarshal: scripted UnmarshalJSONFrom
     UF_COV = ["one-value", "zero-values", "user-error", "skip", "unsupported-after-read"]
-    for t, p, k, a, x in ((0, 0, 2, 4, "7"), (3, 1, 3, 4, "[7,[]]"), (4, 2, 3, 4, '{"a":7}'), (0, 3, 3, 4, '"s"'), (3, 4, 2, 4, "7"), (4, 7, 2, 4, '"7"'),
-                          (0, 1, 4, 3, "[]"), (3, 11, 5, 2, "7")):
-        L.append(ob("ufrom/t=%d/p=%d/k=%d/a=%d/%s" % (t, p, k, a, x), ".", "VerifC17UFrom", [t, p, k, a, x], covers=UF_COV, max_seconds=900, max_paths=30000))
-    for t, p, n, tm in ((1, 0, 3, ""), (0, 3, 2, ""), (1, 0, 0, ' "?" '), (1, 3, 0, "[?,?]")):
+    UF = [(0, 0, 2, 4, "7"), (3, 1, 3, 4, "[7,[]]"), (4, 2, 3, 4, '{"a":7}'), (0, 3, 3, 4, '"s"'), (3, 4, 2, 4, "7"), (4, 7, 2, 4, '"7"'), (0, 1, 4, 3, "[]"), (3, 11, 5, 2, "7")]
+    if not q:
+        UF += [(0, 9, 3, 4, "[7,[]]"), (4, 10, 3, 4, '{"a":7}'), (0, 11, 5, 3, "7"), (3, 5, 3, 4, "[[]]"), (0, 6, 3, 4, "7"), (4, 8, 2, 3, '"7"')]
+    for t, p, k, a, x in UF:
+        cov = UF_COV if p != 8 else ["user-error"]
+        L.append(ob("ufrom/t=%d/p=%d/k=%d/a=%d/%s" % (t, p, k, a, x), ".", "VerifC17UFrom", [t, p, k, a, x], covers=cov, max_seconds=900, max_paths=60000))
+    # ---- unmarshal: UnmarshalJSON / UnmarshalText inputs
+    for t, p, n, tm in ((1, 0, 2 if q else 3, ""), (0, 3, 2, ""), (1, 0, 0, ' "?" '), (1, 3, 0, "[?,?]")):
         L.append(ob("uj/t=%d/p=%d/n=%d/%s" % (t, p, n, tm), ".", "VerifC17UJ", [t, p, n, tm], covers=["called", "accepted"], max_seconds=900, max_paths=60000))
-    for t, p, n, tm in ((2, 0, 3, ""), (4, 3, 2, ""), (2, 0, 0, '"\\??"'), (2, 7, 0, '"??"'), (4, 0, 0, "nul?")):
+    for t, p, n, tm in ((2, 0, 2 if q else 3, ""), (4, 3, 2, ""), (2, 0, 0, '"\\\\??"'), (2, 7, 0, '"??"'), (4, 0, 0, "nul?")):
         L.append(ob("ut/t=%d/p=%d/n=%d/%s" % (t, p, n, tm), ".", "VerifC17UT", [t, p, n, tm], covers=["null"] if tm.startswith("nul") else ["called"], max_seconds=900, max_paths=60000))
+    # ---- unmarshal: options, Reset, function lists
     for t, p, api, r in ((0, 0, 0, False), (3, 1, 0, True), (4, 2, 0, True), (0, 0, 1, True), (0, 0, 2, True), (0, 4, 0, True), (0, 7, 0, False)):
         L.append(ob("uopts/t=%d/p=%d/api=%d/reset=%d" % (t, p, api, r), ".", "VerifC17UOpts", [t, p, api, r], covers=["done"] + (["reset-tried"] if r else []), max_seconds=900, max_paths=2000))
     UFS = [(0, 0, "TpTp", 0), (5, 1, "TpJp", 0), (0, 2, "JpTp", 0), (5, 3, "ToTiTp", 1), (0, 4, "TiJpTp", 0), (5, 5, "TpTiJo", 1), (0, 6, "TpJi", 0),
            (5, 7, "TiTp", 0), (0, 8, "TpJp", 0), (5, 9, "JoTpJi", 1), (0, 10, "TiTpTp", 1)]
     for t, p, spec, nest in UFS:
-        hasJ = any(spec[2 * i] == "J" and spec[2 * i + 1] != "o" for i in range(len(spec) // 2))
-        L.append(ob("ufuncs/t=%d/p=%d/%s/nest=%d" % (t, p, spec, nest), ".", "VerifC17UFuncs", [t, p, spec, bool(nest)], covers=([] if hasJ else ["all-skipped"]) + ["function-decides", "error"], max_seconds=900, max_paths=3000))
+        L.append(ob("ufuncs/t=%d/p=%d/%s/nest=%d" % (t, p, spec, nest), ".", "VerifC17UFuncs", [t, p, spec, bool(nest)],
+                    covers=([] if hasJ(spec) else ["all-skipped"]) + ["function-decides", "error"], max_seconds=900, max_paths=3000))
     if only:
         L = [o for o in L if re.match(only, o["id"])]
     return L
